@@ -60,7 +60,8 @@ def apply(ctx, project, release, generation, token=0):
     _drain()
     instance = _instance(ctx, project, release, generation)
     daskrun.Runner(instance, lc.Feed(), lc.Sink(), scheduler='synchronous').apply()
-    return {'log': _drain(), 'generation': int(instance._generation.key), 'nstates': len(instance.tag.states)}  # pylint: disable=protected-access
+    generation = int(instance._generation.key)  # pylint: disable=protected-access
+    return {'log': _drain(), 'generation': generation, 'nstates': len(instance.tag.states)}
 
 
 def perftrack(ctx, project, release, generation, token=0):
@@ -68,7 +69,8 @@ def perftrack(ctx, project, release, generation, token=0):
     _drain()
     instance = _instance(ctx, project, release, generation)
     daskrun.Runner(instance, lc.Feed(), lc.Sink(), scheduler='synchronous').eval_perftrack()
-    return {'log': _drain(), 'generation': int(instance._generation.key), 'nstates': len(instance.tag.states)}  # pylint: disable=protected-access
+    generation = int(instance._generation.key)  # pylint: disable=protected-access
+    return {'log': _drain(), 'generation': generation, 'nstates': len(instance.tag.states)}
 
 
 def serve(ctx, project, release, generation, token=0):
